@@ -129,9 +129,12 @@ class E3Check(Check):
         "time_range_absolute_bounds", "compute_plot_optional_args",
         "built_from_all_three", "align_checked_against_independent_umeyama",
         "built_from_pose_ndarray", "merge_with_shared_stamps",
-        "merge_of_dict_view", "compute_plot_result",
         "transform_left_with_propagate_flag",
     )
+    # reached reliably only by one of the two operation mixes
+    C16_ONLY_PROBES = ("merge_of_dict_view", "compute_plot_result",
+                       "second_object_from_same_pose_list")
+    C08_ONLY_PROBES = ("text_precision_input_accepted_by_check", )
 
     def setup_worker(self):
         evo_ns()
